@@ -1044,9 +1044,13 @@ type dec_res =
 | RPath of bytes
 | RDeps of n * z * n list
 
-(** val decode : bool -> bytes list -> bool -> n -> bytes -> dec_res **)
+type rmode =
+| RdOld of bool
+| RdCur
 
-let decode strict_align paths is_deps size buf =
+(** val decode_old : bool -> bytes list -> bool -> n -> bytes -> dec_res **)
+
+let decode_old strict_align paths is_deps size buf =
   if is_deps
   then if negb (N.eqb (N.modulo size (Npos (XO (XO XH)))) N0)
        then RFail
@@ -1114,6 +1118,83 @@ let decode strict_align paths is_deps size buf =
                               else RPath path
                        | None -> RUnsafe (S (S (S (S (S O)))))))))))
 
+(** val check_ids_cur : n -> n list -> bool **)
+
+let check_ids_cur n0 ins =
+  forallb (fun i -> (&&) (negb (N.leb two31 i)) (N.ltb i n0)) ins
+
+(** val decode_cur : bytes list -> bool -> n -> bytes -> dec_res **)
+
+let decode_cur paths is_deps size buf =
+  if is_deps
+  then if (||) (negb (N.eqb (N.modulo size (Npos (XO (XO XH)))) N0))
+            (N.ltb size (Npos (XO (XO (XI XH)))))
+       then RFail
+       else (match words_of buf with
+             | [] -> RUnsafe (S O)
+             | out :: l ->
+               (match l with
+                | [] -> RUnsafe (S O)
+                | lo :: l0 ->
+                  (match l0 with
+                   | [] -> RUnsafe (S O)
+                   | hi :: ins ->
+                     if (||) (N.leb two31 out) (N.leb (nlen paths) out)
+                     then RFail
+                     else if check_ids_cur (nlen paths) ins
+                          then RDeps (out, (s64 (N.add (N.mul hi two32) lo)),
+                                 ins)
+                          else RFail)))
+  else (match frev buf with
+        | [] -> RFail
+        | c3 :: l ->
+          (match l with
+           | [] -> RFail
+           | c2 :: l0 ->
+             (match l0 with
+              | [] -> RFail
+              | c1 :: l1 ->
+                (match l1 with
+                 | [] -> RFail
+                 | c0 :: rp ->
+                   (match rp with
+                    | [] -> RFail
+                    | _ :: _ ->
+                      if negb (N.eqb (N.modulo size (Npos (XO (XO XH)))) N0)
+                      then RFail
+                      else (match strip3 rp with
+                            | Some rp' ->
+                              let path = frev rp' in
+                              let checksum =
+                                N.add
+                                  (N.add
+                                    (N.add c0
+                                      (N.mul (Npos (XO (XO (XO (XO (XO (XO
+                                        (XO (XO XH))))))))) c1))
+                                    (N.mul (Npos (XO (XO (XO (XO (XO (XO (XO
+                                      (XO (XO (XO (XO (XO (XO (XO (XO (XO
+                                      XH))))))))))))))))) c2))
+                                  (N.mul (Npos (XO (XO (XO (XO (XO (XO (XO
+                                    (XO (XO (XO (XO (XO (XO (XO (XO (XO (XO
+                                    (XO (XO (XO (XO (XO (XO (XO
+                                    XH))))))))))))))))))))))))) c3)
+                              in
+                              if (||)
+                                   (negb
+                                     (Z.eqb (s32 (lnot32 checksum))
+                                       (Z.of_N (nlen paths))))
+                                   (mem_bytes path paths)
+                              then RFail
+                              else RPath path
+                            | None -> RUnsafe (S (S (S (S (S O)))))))))))
+
+(** val decode : rmode -> bytes list -> bool -> n -> bytes -> dec_res **)
+
+let decode m paths is_deps size buf =
+  match m with
+  | RdOld strict_align -> decode_old strict_align paths is_deps size buf
+  | RdCur -> decode_cur paths is_deps size buf
+
 type lstate = { l_s : dstate; l_off : n; l_total : n; l_unique : n }
 
 (** val l_add_path : lstate -> bytes -> n -> lstate **)
@@ -1139,9 +1220,9 @@ let needs_recompaction total unique =
   (&&) (N.ltb (Npos (XO (XO (XO (XI (XO (XI (XI (XI (XI XH)))))))))) total)
     (N.ltb (N.mul unique (Npos (XI XH))) total)
 
-(** val load_loop : bool -> bool -> nat -> lstate -> bytes -> dload **)
+(** val load_loop : bool -> rmode -> nat -> lstate -> bytes -> dload **)
 
-let rec load_loop old strict_align fuel st x =
+let rec load_loop old m fuel st x =
   match fuel with
   | O -> DFuel
   | S fuel' ->
@@ -1154,13 +1235,12 @@ let rec load_loop old strict_align fuel st x =
               (needs_recompaction st.l_total st.l_unique))
      | FFail -> DOk (st.l_s, (Some (N.to_nat st.l_off)), false)
      | FRec (is_deps, size, buf, rest) ->
-       (match decode strict_align st.l_s.d_paths is_deps size buf with
+       (match decode m st.l_s.d_paths is_deps size buf with
         | RFail -> DOk (st.l_s, (Some (N.to_nat st.l_off)), false)
         | RUnsafe why -> DUnsafe why
-        | RPath p ->
-          load_loop old strict_align fuel' (l_add_path st p size) rest
-        | RDeps (o, m, ins) ->
-          load_loop old strict_align fuel' (l_add_deps st o m ins size) rest))
+        | RPath p -> load_loop old m fuel' (l_add_path st p size) rest
+        | RDeps (o, mt, ins) ->
+          load_loop old m fuel' (l_add_deps st o mt ins size) rest))
 
 (** val l_init : lstate **)
 
@@ -1168,22 +1248,22 @@ let l_init =
   { l_s = d_empty; l_off = (Npos (XO (XO (XO (XO XH))))); l_total = N0;
     l_unique = N0 }
 
-(** val load_deps_ver : bool -> bool -> bytes -> dload **)
+(** val load_deps_ver : bool -> rmode -> bytes -> dload **)
 
-let load_deps_ver old strict_align file =
+let load_deps_ver old m file =
   match take (S (S (S (S (S (S (S (S (S (S (S (S (S (S (S (S
           O)))))))))))))))) file with
   | Some p ->
     let (h, x) = p in
     if bytes_eqb h deps_header
-    then load_loop old strict_align (S (length x)) l_init x
+    then load_loop old m (S (length x)) l_init x
     else DBadHeader
   | None -> DBadHeader
 
 (** val load_deps_gen : bool -> bytes -> dload **)
 
-let load_deps_gen strict_align file =
-  load_deps_ver false strict_align file
+let load_deps_gen _ file =
+  load_deps_ver false RdCur file
 
 (** val load_deps : bytes -> dload **)
 
@@ -1336,10 +1416,10 @@ let recompact_r live s =
         | None -> CUnsafe (S (S O)))
 
 (** val session_ver :
-    bool -> bool -> (bytes -> bool) -> bytes -> dop list -> bytes **)
+    bool -> rmode -> (bytes -> bool) -> bytes -> dop list -> bytes **)
 
-let session_ver old strict_align live file ops =
-  match load_deps_ver old strict_align file with
+let session_ver old m live file ops =
+  match load_deps_ver old m file with
   | DBadHeader ->
     let (p, _) = run_ops d_empty ops in let (_, w) = p in app deps_header w
   | DOk (s, tr, nr) ->
@@ -1357,8 +1437,8 @@ let session_ver old strict_align live file ops =
 (** val session_gen :
     bool -> (bytes -> bool) -> bytes -> dop list -> bytes **)
 
-let session_gen strict_align live file ops =
-  session_ver false strict_align live file ops
+let session_gen _ live file ops =
+  session_ver false RdCur live file ops
 
 (** val session : (bytes -> bool) -> bytes -> dop list -> bytes **)
 
